@@ -393,6 +393,7 @@ class Driver:
             "aborting": bool(getattr(p, "_aborting", False)) if p else False,
             "nready": p._ready_batches.qsize() if p is not None and hasattr(p, "_ready_batches") else 0,
             "running": bool(getattr(p, "_running", False)) if p else False,
+            "exception": bool(getattr(p, "_exception", False)) if p else False,
             "submitted": call_batches,
             "trk_ids": trk_ids,
             "reentered": bool(cur.reentered) if cur else False,
